@@ -636,8 +636,8 @@ def check_selector_c07(ctx, sel):
     want_mask = Cond.cmp("<=", sym("starts"), cpt) & Cond.cmp("<", cpt, sym("ends"))
     got, wnt = (lin_set(mask) if mask is not None else None), lin_set(want_mask)
     ctx.check(got is not None and got == wnt, rule, "containment-mask", st.loc(), "exactly the intervals that contain the chosen point are removed: start <= cpt < end", found=repr(mask), expected=repr(want_mask))
-    okz = isinstance(val, Num) and val.nf is not None and (val.nf.is_zero() or nf_equal(val.nf, thr) or nf_equal(val.nf, -sym("inf"))) and not st.data.get("aug")
-    ctx.check(okz, rule, "zeroing", st.loc(), "removed intervals get a score that can never exceed the (non-negative) threshold again: 0, the threshold itself or -inf", found=repr(val))
+    okz = isinstance(val, Num) and val.nf is not None and (nf_equal(val.nf, thr) or nf_equal(val.nf, -sym("inf"))) and not st.data.get("aug")
+    ctx.check(okz, rule, "zeroing", st.loc(), "removed intervals get a score that can never exceed the threshold again, whatever its sign: -inf or the threshold itself (F-30: with 0.0 and a tuned threshold of -1e-13 - rounding noise of cost-based scores on constant data - the removed intervals still exceed it and the loop never ends)", found=repr(val))
     # in place (`cpts.sort(); return cpts`) or as a sorted copy (`return sorted(cpts)`), after the loop
     srt = [e for e in p.events if e.kind == "list_sort"]
     ok_inplace = len(srt) == 1 and bool(apps) and srt[0].data["lst"] is apps[0].data["lst"] and p.value is apps[0].data["lst"] and not srt[0].loops
